@@ -1415,6 +1415,47 @@ func (x *c12run) checkDerived(what string, r starlark.Value, want []mEntry, orde
 	}
 	if fmt.Sprint(got) != fmt.Sprint(exp) {
 		x.fail("wrong-derived", "%s produced %v, the ordered association list gives %v", what, got, exp)
+		return
+	}
+	// the derived collection is a dict/set in its own right: every element it
+	// lists is found by lookup, every other universe key is not, and its length
+	// is the number of elements it lists
+	var has func(k starlark.Value) (bool, error)
+	n := -1
+	switch c := r.(type) {
+	case *starlark.Dict:
+		has = func(k starlark.Value) (bool, error) { _, f, err := c.Get(k); return f, err }
+		n = c.Len()
+	case *starlark.Set:
+		has = c.Has
+		n = c.Len()
+	}
+	if has == nil {
+		return
+	}
+	if n != len(want) {
+		x.fail("wrong-derived", "%s: Len()=%d but it lists %d elements", what, n, len(want))
+		return
+	}
+	in := map[string]bool{}
+	for _, e := range want {
+		in[x.key(e.k).class] = true
+		if f, err := has(x.key(e.k).v); err != nil || !f {
+			x.fail("wrong-derived", "%s lists %s but lookup does not find it (err=%v)", what, x.key(e.k).class, err)
+			return
+		}
+	}
+	if !x.long {
+		for i := range x.sc.Keys {
+			k := x.key(i)
+			if k.unhash || k.selfInc || in[k.class] {
+				continue
+			}
+			if f, err := has(k.v); err == nil && f {
+				x.fail("wrong-derived", "%s does not list %s but lookup finds it", what, k.class)
+				return
+			}
+		}
 	}
 }
 
